@@ -180,9 +180,11 @@ void wrapped_interval<Number>::exact_meet(
     out.push_back(*this);
   } else if (at(x.m_start) && at(x.m_end)) {
     out.push_back(x);
-  } else if (x.at(m_start) && at(x.m_end) && !x.at(m_end) && at(x.m_start)) {
+  } else if (x.at(m_start) && at(x.m_end) && !x.at(m_end) && !at(x.m_start)) {
+    // *this starts inside x and x ends inside *this
     out.push_back(wrapped_interval<Number>(m_start, x.m_end));
-  } else if (x.at(m_end) && at(x.m_start) && !x.at(m_start) && at(x.m_end)) {
+  } else if (x.at(m_end) && at(x.m_start) && !x.at(m_start) && !at(x.m_end)) {
+    // x starts inside *this and *this ends inside x
     out.push_back(wrapped_interval<Number>(x.m_start, m_end));
   } else {
     // bottom
